@@ -1,10 +1,10 @@
 package props
 
 import (
-	"verif/lib/schemagen"
-	"verif/lib/typedmon"
 	"fmt"
 	"math"
+	"verif/lib/schemagen"
+	"verif/lib/typedmon"
 
 	"github.com/ipld/go-ipld-prime/datamodel"
 	"github.com/ipld/go-ipld-prime/node/basicnode"
@@ -28,7 +28,7 @@ func (c01) ID() string { return "C01" }
 func (c01) Plan(tier string) fw.Plan {
 	p := fw.Plan{
 		Batches: 16, Cases: 1800, TimeoutSec: 900, Level: "exploration",
-		Rule: "values drawn boundary-biased over all nine kinds (ints over int64 ∪ uint64, NaN/Inf floats, arbitrary byte strings as strings/keys/bytes, CIDs, empty/nested/wide containers); each built by ≥2 randomly drawn legal build programs (AssembleEntry vs AssembleKey/AssembleValue with AssignString/AssignNode keys; Assign<Kind> vs AssignNode from basicnode or a harness-owned node implementation; whole-subtree AssignNode; size hints −1,0,n−1,n,n+3,1024) into basicnode Any and the kind's own basicnode prototype, and into bindnode Any / {String:Any} / [Any] prototypes; the full read-out monitor runs on each result; DeepEqual and Copy are compared with model equality on equal, reordered and one-leaf-different pairs. Non-trivial: a container with ≥2 children or nesting depth ≥2; distinct by canonical hash.",
+		Rule:        "values drawn boundary-biased over all nine kinds (ints over int64 ∪ uint64, NaN/Inf floats, arbitrary byte strings as strings/keys/bytes, CIDs, empty/nested/wide containers); each built by ≥2 randomly drawn legal build programs (AssembleEntry vs AssembleKey/AssembleValue with AssignString/AssignNode keys; Assign<Kind> vs AssignNode from basicnode or a harness-owned node implementation; whole-subtree AssignNode; size hints −1,0,n−1,n,n+3,1024) into basicnode Any and the kind's own basicnode prototype, and into bindnode Any / {String:Any} / [Any] prototypes; the full read-out monitor runs on each result; DeepEqual and Copy are compared with model equality on equal, reordered and one-leaf-different pairs. Non-trivial: a container with ≥2 children or nesting depth ≥2; distinct by canonical hash.",
 		Assumptions: []string{"the read-out monitor (lib/obs) and the abstract value model are the oracle", "typed implementations are covered in their own value space by C08/C13; here only the bindnode Any/map/list bindings"},
 		MinEvents:   []string{"builds_basic_any", "builds_basic_kind_proto", "builds_bindnode", "readout_events", "deepequal_calls", "copy_calls"},
 	}
@@ -306,6 +306,9 @@ func c01Typed(c *fw.Ctx, rng *fw.RNG) {
 		return
 	}
 	eng := newBindEngine(lib)
+	if rng.Bool() {
+		eng = newShapedBindEngine(lib, ts, rng)
+	}
 	for _, t := range ts.Types {
 		if t.Name[0] != 'T' {
 			continue
@@ -313,7 +316,11 @@ func c01Typed(c *fw.Ctx, rng *fw.RNG) {
 		for k := 0; k < 3; k++ {
 			tv := schemagen.GenValue(rng, ts, t, 0)
 			c.Count("typed_values", 1)
-			typedmon.CheckWrongKind(c, eng, ts, t, tv)
+			if k == 0 {
+				typedmon.CheckWrongKind(c, eng, ts, t, tv)
+			} else {
+				typedmon.CheckTypedReadback(c, eng, ts, t, tv, rng)
+			}
 		}
 	}
 }
